@@ -502,6 +502,38 @@ def gen_range(rng, size):
     return unit + eq + sep.join(specs)
 
 
+def boundary_headers(size):
+    """Range headers around every boundary of a file of `size` bytes, each position +-1: first = last, first = last+1
+    (reversed by one), last+2, first = len-1 / len / len+1, last = len-1 / len, suffix 0 / 1 / len / len+1, and
+    multi-spec lists mixing valid specs with reversed-by-one ones"""
+    L = size
+    firsts = sorted({x for x in (0, 1, 2, L - 2, L - 1, L, L + 1) if x >= 0})
+    single = []
+    for f in firsts:
+        for l in sorted({x for x in (f - 2, f - 1, f, f + 1, f + 2, L - 2, L - 1, L, L + 1) if x >= 0}):
+            single.append('%d-%d' % (f, l))
+        single.append('%d-' % f)
+    for n in sorted({x for x in (0, 1, 2, L - 1, L, L + 1) if x >= 0}):
+        single.append('-%d' % n)
+    out = ['bytes=' + x for x in single]
+    rev = ['%d-%d' % (f, f - 1) for f in firsts if f >= 1]
+    good = ['0-0', '0-1', '%d-' % max(L - 1, 0), '-1', '%d-%d' % (L, L)]
+    for r in rev:
+        for g in good:
+            out.append('bytes=%s,%s' % (g, r))
+            out.append('bytes=%s,%s' % (r, g))
+    out += ['bytes=0-0,1-1', 'bytes=0-0,0-0', 'bytes=%d-%d,%d-%d' % (L, L, L + 1, L + 1), 'bytes=-0,-0', 'bytes=0-,0-0']
+    return out
+
+
+def boundary_cases(rng, sizes=(0, 1, 2, 10, 4096), n_requests=160):
+    fn = [{'k': 'ranges_fn', 'size': sz, 'hdr': h} for sz in sizes for h in boundary_headers(sz)]
+    pool = [{'k': 'range', 'size': sz, 'hdr': h, 'mode': 'http' if i % 3 == 0 else 'direct', 'proto': '1.1'}
+            for sz in sizes if sz in RANGE_SIZES for i, h in enumerate(boundary_headers(sz))]
+    reqs = pool if n_requests is None or n_requests >= len(pool) else rng.sample(pool, n_requests)
+    return fn + reqs
+
+
 def ascii_token(s):
     return all(33 <= ord(c) < 127 for c in s)
 
@@ -512,7 +544,7 @@ class C16(Prop):
     id = 'C16'
     props_file = 'Props/C16.v'
     imports = ['Model.StaticPath', 'Model.Ranges', 'Model.FrontEnd', 'Model.StaticObs']
-    quick_n = 1200
+    quick_n = 1000
     thorough_n = 40000
     rule = ('request paths of up to 6 segments over hostile ("..", ".", "", %2e%2e, %252e%252e, ..%2f, backslash, %00, '
             'overlong UTF-8 ...) and benign (names inside / beside / above the root) segments, decoded-absolute paths, '
@@ -550,6 +582,7 @@ class C16(Prop):
                 for segs in itertools.product(alpha, repeat=k):
                     cases.append({'k': 'path', 'lay': 'L0', 'mount': None, 'mode': 'direct',
                                   'path': '/' + '/'.join(segs), 'listing': k % 2 == 0})
+        cases += boundary_cases(rng, n_requests=160 if tier == 'quick' else None)
         for i in range(n):
             r = rng.random()
             if r < 0.55:
@@ -863,7 +896,8 @@ class C16(Prop):
         return bool(c['hdr']) and '-' in c['hdr']
 
     def search(self, rng, tier):
-        return self.generate(rng, 3000, 'thorough')
+        # boundary specs first (every request form of them), then a large random sample
+        return boundary_cases(rng, n_requests=None) + self.generate(rng, 3000, 'quick')
 
 
 if __name__ == '__main__':
